@@ -1,7 +1,7 @@
 """C04 - fields and elements are laid out in order, inside their element, without overlap."""
 from ..rules_vector import Checker
 from ..corpus import FilterRec
-from ..rules_layout import rule_C04
+from ..rules_layout import rule_C04, rule_P1e
 from ._common import run_vector
 from .. import config
 
@@ -9,6 +9,9 @@ from .. import config
 def rule(tu, rec):
     ck = Checker(tu, FilterRec(rec, ("-O1", "-O2", "-O3")), "C04")
     rule_C04(ck)
+    # elements of one vector do not overlap: all-fixed vectors place element i at begin + i*stride, so the stride is at
+    # least the extent of one element for all fixed sizes (the fit half of P1e; the tightness half belongs to C05)
+    rule_P1e(Checker(tu, FilterRec(rec, ("P1e-fit",)), "C04"), "P1e")
 
 
 def run(tier, seed, only=None):
@@ -20,6 +23,8 @@ def run(tier, seed, only=None):
         "writer+reader: the element just appended by emplace_back): O1 each object starts at or behind the end of the "
         "previous one (linear reasoning with AlignUp bounds, all sizes symbolic); O2 reference.data_begin()/data_end()/"
         "iterator.data() are the first object's address / the last object's end; O3 a FixedSize span has get_fixed_size<j>() "
-        "objects and a VaryingSize span as many as the count parameter stored in front of it in the same element.  Order of "
-        "*elements* follows from C01 T3/T4 (append position and shift), stated there.",
+        "objects and a VaryingSize span as many as the count parameter stored in front of it in the same element.  P1e-fit: "
+        "consecutive elements of an all-fixed vector do not overlap - the stride stored by every constructor is at least the "
+        "extent data_end()-data_begin() of one element, for all fixed sizes.  Order of *elements* of varying-size vectors "
+        "follows from C01 T3/T4 (append position and shift), stated there.",
         cfgs=[(pl, C.A_NONE) for pl in lists], min_cfg=38, min_ob=600)
